@@ -8,7 +8,8 @@ open OdlModel OdlModel.OpAlgebra
 
 /-!
 `expr leaves=<leaf|leaf|…> e=<rpn token|token|…> x=<entries>`
-answers `ok tree=… dom=… ran=… lin=0|1 fn=0|1 ty=… linof=0|1 tt=0|1 val=… inp=… den=…` or
+answers `ok tree=… dom=… ran=… lin=0|1 fn=0|1 ty=… linof=0|1 tt=0|1 val=… inp=… inpx=… den=…` or
+(`inpx`: `runInBy` over the extracted in-place statement lists, junk in `out` and temporaries)
 `raise ty=… tt=0|1` (`tt`: the dispatch through the extracted tables gives the same object).
 `leafclass leaf=<kind~…> x= y= s= t=` answers `ok cls=all|real|none lin= fn= dom= ran= fx= fy= fsx= ftx= fxy=`.
 
@@ -194,7 +195,12 @@ def doExpr (l : Line) : Option String := do
     let val := toList n (run env i xv)
     let inp := toList n (runIn env i xv)
     let d := toList n (den env e xv)
-    some s!"ok tree={showImpl i} dom={showSp i.dom} ran={showSp i.ran} lin={b01 i.lin} fn={b01 i.isFn} ty={showTy ty} linof={b01 (linOf e)} nf={b01 i.merged} tt={b01 (viaT == some (showImpl i) && i.linBy Gen.AlgebraDispatch.flagOf == i.lin && toList n (runBy Gen.AlgebraDispatch.callOf env i xv) == val)} val={showCList val} inp={showCList inp} den={showCList d}"
+    -- in-place value through the EXTRACTED statement lists, with unspecified (junk) contents of
+    -- `out` and of every fresh temporary
+    let junk : V := fun j => ⟨((77 + j : Nat) : Rat), -5⟩
+    let out0 : V := fun j => ⟨-13, ((j + 1 : Nat) : Rat)⟩
+    let inpx := toList n (runInBy Gen.AlgebraDispatch.inplaceOf Gen.AlgebraDispatch.callOf env junk i xv out0)
+    some s!"ok tree={showImpl i} dom={showSp i.dom} ran={showSp i.ran} lin={b01 i.lin} fn={b01 i.isFn} ty={showTy ty} linof={b01 (linOf e)} nf={b01 i.merged} tt={b01 (viaT == some (showImpl i) && i.linBy Gen.AlgebraDispatch.flagOf == i.lin && toList n (runBy Gen.AlgebraDispatch.callOf env i xv) == val)} val={showCList val} inp={showCList inp} inpx={showCList inpx} den={showCList d}"
 
 def showCls : LinClass → String
   | .all => "all" | .realOnly => "real" | .none => "none"
